@@ -728,10 +728,10 @@ def oracle_fin_sent(case, impl):
     hits = []
     if any(l.startswith(("vs tmode", "vs chanclose")) for l in case):
         return []
-    pending, acked_upto, fin_sent = [], None, set()
+    pending, acked_upto, fin_sent, highest_data = [], None, set(), None
     for ev in tr.events:
         if ev["op"] == "new":
-            pending, acked_upto, fin_sent = [], None, set()
+            pending, acked_upto, fin_sent, highest_data = [], None, set(), None
         if ev["op"] == "inject" and "dgram" in ev:
             pending.append(ev["dgram"])
         if ev["op"] != "poll" or "dgrams" not in ev:
@@ -745,15 +745,23 @@ def oracle_fin_sent(case, impl):
         for d in ev["dgrams"]:
             if d["type"] == 1:
                 fin_sent.add(d["seq"])
+            if d["type"] == 0 and (highest_data is None or _md(d["seq"], highest_data) > 0):
+                highest_data = d["seq"]
         if not ev["res"].startswith("pending"):
             break
         m = re.search(r"st=FinWait1;\{;our_fin:;(\d+)", ev["out"])
         if not m:
             continue
         fin = int(m.group(1))
+        # "its FIN carries the sequence number following the last data segment": the number scheduled for the FIN may
+        # not be one a data segment has already been transmitted with (D26: seq_nr set back by re-sends after an RTO)
+        if highest_data is not None and _md(fin, highest_data) <= 0:
+            hits.append({"sig": {"oracle": "fin_sent", "what": "fin_number_already_used_by_a_data_segment"},
+                         "text": f"poll at t={ev['t']} ns: state FinWait1 with our FIN = {fin}, but data segments up to {highest_data} have been transmitted: the FIN's number does not follow the last data segment (last_sent_seq_nr={ev['fp'].get('lss')})"})
+            break
         if fin in fin_sent or acked_upto is None:
             continue
-        if _md(acked_upto, (fin - 1) % 65536) == 0:
+        if _md(acked_upto, (fin - 1) % 65536) >= 0:
             hits.append({"sig": {"oracle": "fin_sent", "what": "fin_withheld_after_all_data_acked"},
                          "text": f"poll at t={ev['t']} ns: state FinWait1 with our FIN = {fin}, the peer has acknowledged everything up to {acked_upto}, yet no FIN was ever sent (last_sent_seq_nr={ev['fp'].get('lss')}): the peer never learns the stream ended"})
             break
